@@ -1879,7 +1879,11 @@ func (bc *Blockchain) AddBlock(block *block.Block) error {
 			// Transactions are verified before adding them
 			// into the pool, so there is no point in doing
 			// it again even if we're verifying in-block transactions.
-			if bc.memPool.ContainsKey(tx.Hash()) {
+			// But witnesses are not covered by the hash, they must be
+			// the ones that were verified.
+			if ptx, ok := bc.memPool.TryGetValue(tx.Hash()); ok && slices.EqualFunc(ptx.Scripts, tx.Scripts, func(a, b transaction.Witness) bool {
+				return bytes.Equal(a.InvocationScript, b.InvocationScript) && bytes.Equal(a.VerificationScript, b.VerificationScript)
+			}) {
 				err = mp.Add(tx, bc)
 				if err == nil {
 					continue
